@@ -65,6 +65,29 @@ def rand_hypergraph(rng, n_units, n_rows, maxw=3, allow_isolated=True):
     return rows
 
 
+def rand_hub_hypergraph(rng, n_units, n_rows):
+    """conjunctive provenance with a 'hub': one unit that co-occurs with several other units AND owns rows that need it alone
+    (rows {h}, {h,a}, {h,b}, ...; the remaining rows are more of the same or random sets of 1-3 units). In the compiled diagram the hub is a
+    factor variable of a stacked component and its single-unit rows put their tallies on the header (root) edges; with probability >= 0.7 unit 0 is
+    the hub or one of its partners, so that the hub's component - and with it the hub - comes first in the diagram. Needs n_units >= 2, n_rows >= 2."""
+    hub = rng.randrange(n_units)
+    others = [u for u in range(n_units) if u != hub]
+    partners = rng.sample(others, min(len(others), max(1, n_rows - 1), rng.randint(2, 3)))
+    if hub != 0 and 0 not in partners and rng.random() < 0.7:
+        partners[0] = 0
+    rows = [[hub]] + [sorted([hub, p]) for p in partners]
+    while len(rows) < n_rows:
+        r = rng.random()
+        if r < 0.4:
+            rows.append([hub])
+        elif r < 0.8:
+            rows.append(sorted([hub, rng.choice(others)]))
+        else:
+            rows.append(sorted(rng.sample(range(n_units), rng.randint(1, min(3, n_units)))))
+    rng.shuffle(rows)
+    return rows
+
+
 def rand_groups(rng, n_rows, n_units):
     """every row owned by exactly one unit; every unit owns at least one row when possible"""
     g = [rng.randrange(n_units) for _ in range(n_rows)]
